@@ -321,8 +321,27 @@ pub fn explore(ctx: &Ctx, shard: usize, n: usize) -> Report {
         };
         if watchdog_fired {
             let c = gen_case(ctx.seed, last_seen, &corpus);
-            rep.obs("watchdog_cases_inconclusive", 1);
-            rep.notes.push(format!("watchdog: no progress for {WATCHDOG_S}s on case {last_seen}: {}", c.to_json()));
+            // the step budget only sees loops that tick. A case that stood still for the whole watchdog period is run once more,
+            // alone, in a fresh process: if that one does not come back within a minute either (an ordinary case takes well under a
+            // millisecond), it is an endless loop outside the ticked sites - a violation. If it comes back, the machine was busy.
+            let alone = if last_seen != u64::MAX {
+                let out2 = dir.join("alone.json"); let cur2 = dir.join("cur2");
+                let ch = std::process::Command::new(&exe).args(["C02", "explore", "--tier", if ctx.quick() { "quick" } else { "thorough" }, "--seed", &ctx.seed.to_string(), "--threads", "1", "--child", &last_seen.to_string(), &(last_seen + 1).to_string(), cur2.to_str().unwrap(), "--out", out2.to_str().unwrap()])
+                    .stdin(std::process::Stdio::null()).stdout(std::process::Stdio::null()).stderr(std::process::Stdio::null()).spawn();
+                match ch { Ok(mut ch) => { let t0 = std::time::Instant::now(); loop { match ch.try_wait() { Ok(Some(_)) => break Some(true), Ok(None) => { if t0.elapsed().as_secs() > 60 { let _ = ch.kill(); let _ = ch.wait(); break Some(false) } std::thread::sleep(std::time::Duration::from_millis(50)); } Err(_) => break None } } } Err(_) => None }
+            } else { None };
+            if alone == Some(false) {
+                rep.eval(1);
+                let cj = c.to_json();
+                rep.violation("hang without ticks: no return within the wall-clock watchdog in two separate processes".into(), || json!({"case": cj, "expected": "return", "observed": format!("no progress for {WATCHDOG_S} s, then again for 60 s when run alone")}));
+                // every such case costs three minutes: the verdict is settled, the rest of this slice is skipped
+                rep.notes.push("a slice stopped after a hang outside the ticked loops".into());
+                rep.obs("cases_skipped_after_a_hang_without_ticks", end.saturating_sub(last_seen + 1));
+                break;
+            } else {
+                rep.obs("watchdog_cases_inconclusive", 1);
+                rep.notes.push(format!("watchdog: no progress for {WATCHDOG_S}s on case {last_seen}: {}", c.to_json()));
+            }
             if last_seen == u64::MAX || last_seen < start || last_seen >= chunk_end { break }
             let pre = worker(ctx.seed, start, last_seen, None, &corpus); rep.merge(pre);
             rep.obs("cases_assigned", last_seen + 1 - start);
